@@ -485,6 +485,21 @@ def check(prop, harness_specs, tier, assumptions):
         write_evidence(prop, tier, base_seed(), {"evaluations": 0, "distinct_nontrivial": 0, "rule": "build failed", "samples": []}, time.time() - t0, 0,
                        assumptions)
         return finish(prop, [], [], faults_m)
+    # regression corpus: replay files of defects that were repaired ("fixed:" entries of known_findings.json) must stay quiet
+    import glob
+    regress_run = 0
+    for rp in sorted(glob.glob(os.path.join(VERIF, "regress", prop + "_*.replay.json"))):
+        try:
+            h = json.load(open(rp))["harness"]
+        except Exception:
+            continue
+        if h not in exes:
+            continue
+        ok, got = replay_file(rp, exes[h])
+        regress_run += 1
+        if ok:
+            log("regression: %s reproduces again (%s)" % (rp, got))
+            violations.append(rp)
     per = {}
     for name, flags, share in harness_specs:
         res = explore(exes[name], tier, total * share)
@@ -516,7 +531,8 @@ def check(prop, harness_specs, tier, assumptions):
             faults_m.append(mf)
     wall = time.time() - t0
     cov = summarise(all_results, [h[0] for h in harness_specs], tier, wall, build_s,
-                    {"runs_per_harness": per, "failing_runs": len(fails), "failure_classes": sorted(set(r["cls"] for r in fails))})
+                    {"runs_per_harness": per, "failing_runs": len(fails), "failure_classes": sorted(set(r["cls"] for r in fails)),
+                     "regression_replays_run": regress_run})
     write_evidence(prop, tier, base_seed(), cov, wall, len(violations), assumptions)
     log("%s: %d runs, %d distinct non-trivial, %d failing, %.0fs" % (prop, cov["evaluations"], cov["distinct_nontrivial"], len(fails), wall))
     return finish(prop, violations, known_lines, faults_m)
